@@ -36,7 +36,7 @@ def functions(ns):
 def instantiations(tier, seed):
     rng = random.Random(seed * 1301 + 9)
     out = []
-    skels = [s for s in F.pl_family(tier, seed, n_quick=8, n_thorough=250)]
+    skels = [s for s in F.pl_family(tier, seed, n_quick=20, n_thorough=250)]
     for k, sk in enumerate(skels):
         if sk["t"] == "Not":
             continue
@@ -48,7 +48,7 @@ def instantiations(tier, seed):
             out.append({"part": "solve", "model": m, "virtual": bool(k % 2), "answer": ans, "nobj": 1 + (k % 2)})
         if tier == "thorough" or k % 4 == 0:
             out.append({"part": "exact", "model": m, "wseed": rng.randrange(10 ** 6)})
-    for k, c in enumerate(cfg.cfg_family(tier, seed, n_quick=4, n_thorough=200)):
+    for k, c in enumerate(cfg.cfg_family(tier, seed, n_quick=10, n_thorough=200)):
         its = cfg.items(c)
         keys = rng.sample(its, min(2, len(its)))
         for ans in ["vector", "none", "raise"][: (3 if k % 3 == 0 else 1)]:
